@@ -2992,6 +2992,7 @@ from queries_c13api import QUERIES_C13API  # noqa: E402
 QUERIES["C13"] = QUERIES.get("C13", []) + QUERIES_C13API
 from queries_c15text import QUERIES_C15TEXT  # noqa: E402
 QUERIES["C15"] = QUERIES.get("C15", []) + QUERIES_C15TEXT
+QUERIES["C09"] = QUERIES.get("C09", []) + QUERIES_C15TEXT
 from queries_c18b import QUERIES_C18B  # noqa: E402
 QUERIES["C18"] = QUERIES.get("C18", []) + QUERIES_C18B
 
